@@ -94,13 +94,23 @@ impl C15 {
 
 impl Monitor for C15 {
     fn run_case(&mut self, idx: u64, obs: &mut Obs) {
-        let (src, input, kind) = self.gen(idx);
+        let (mut src, input, kind) = self.gen(idx);
         let mut base = self.boot.clone();
         base.set_binary_input(Xbitstr::from(input)).expect("input");
         if idx % 3 != 0 {
-            // an earlier program has run on this interpreter: values are on the stack, a word and a variable exist
-            let _ = base.eval(["11 \"pre\" [ 3 ]", "7", ": earlier 1 + ; 5 var earlier-v 2 3"][(idx % 3) as usize]);
+            // an earlier program has run on this interpreter: values are on the stack, a word and a variable exist, an
+            // immediate word that reads a variable exists (and is used by this program), the earlier program ended with exit
+            let v = ((idx / 3) % 6) as usize;
+            let earlier = ["11 \"pre\" [ 3 ]", "7", ": earlier 1 + ; 5 var earlier-v 2 3", "5 var imm-v : imm-w immediate imm-v 1 + ; 8", "1 2 0 exit 3", ": q-w 9 exit ; 4 q-w 5"][v];
+            let _ = catch(|| base.eval(earlier));
             let _ = base.read_stdout();
+            if v == 3 {
+                src = format!("imm-w {} imm-w", src);
+                obs.count("programs_using_an_immediate_word_that_reads_a_variable");
+            }
+            if v >= 4 {
+                obs.count("programs_after_a_program_that_called_exit");
+            }
             obs.count("programs_after_an_earlier_program");
         }
         let limit = [40_000usize, 3_000, 257, 52][(idx % 4) as usize];
